@@ -3,7 +3,8 @@
 import json, os, shutil, sys
 p, k, change, needs, outcome = sys.argv[1:6]
 src = '/tmp/seed/%s-out/%s' % (p, k)
-sid = '%s-%s' % (p.upper(), k)
+# round 2 outputs (again numbered 1, 2 by their authors) are stored as -3, -4: STORE_OFFSET=2
+sid = '%s-%d' % (p.upper(), int(k) + int(os.environ.get('STORE_OFFSET', '0')))
 d = '/verif/seeded/' + sid
 os.makedirs(d, exist_ok=True)
 for f in ('patch.diff', 'demo_test.go'):
